@@ -1,0 +1,23 @@
+//go:build verif
+
+package cache
+
+import "sort"
+
+// VerifEach calls f for every cached object in ascending id order.
+func (c *Cache) VerifEach(f func(id uint64, obj interface{})) {
+	c.mu.Lock()
+	ids := make([]uint64, 0, len(c.entries))
+	for id := range c.entries {
+		ids = append(ids, id)
+	}
+	sort.Slice(ids, func(i, j int) bool { return ids[i] < ids[j] })
+	objs := make([]interface{}, len(ids))
+	for i, id := range ids {
+		objs[i] = c.entries[id].slot.Obj
+	}
+	c.mu.Unlock()
+	for i, id := range ids {
+		f(id, objs[i])
+	}
+}
